@@ -302,6 +302,23 @@ pub fn run(ctx: &mut Ctx) {
             }
         }
     }
+    // an escape character before every class of character (a needless escape just yields the character):
+    // ASCII letter, digit, 2-, 3-, 4-byte letters, combining mark, space, the separator, the escape itself
+    for x in ["a", "0", "é", "水", "😀", "\u{301}", " ", "-", ".", "\\"] {
+        if !ctx.mine() {
+            continue;
+        }
+        let data = json!({
+            x: "plain", format!("a{}", x): "a+x", format!("{}b", x): "x+b", format!("{}{}", x, x): "xx", format!("\\{}", x): "with-backslash",
+            "a": { x: "nested", "b": "ab" }, "b": [x],
+        });
+        for pth in [format!("\\{}", x), format!("a\\{}", x), format!("\\{}b", x), format!("a.\\{}", x), format!("\\{}\\{}", x, x), format!("\\{}.b", x), format!("b.0\\{}", x), format!("\\a\\{}", x)] {
+            ctx.edge();
+            ctx.check("path:escape-before", &var(json!(pth)), &data);
+            ctx.check("path:escape-before:default", &var(json!([pth, "dflt"])), &data);
+            ctx.check("path:escape-before:missing", &json!({"missing": [pth]}), &data);
+        }
+    }
     // (b) key operand kinds
     let mut ints: Vec<Value> = al::ints_small().into_iter().map(|i| json!(i)).collect();
     ints.extend(al::ints_extreme());
@@ -392,4 +409,5 @@ pub fn run(ctx: &mut Ctx) {
         }
     }
     crate::spaces::render_probes(ctx, &["var"]);
+    crate::spaces::width_probes(ctx);
 }
